@@ -310,9 +310,9 @@ mod decoys {
 
 
 # macros of the derive site that shadow std macros (textual scope): generated code that calls one of them without a path gets the decoy.
-# (`stringify!` and `unreachable!` are left out: the templates do use them unqualified - recorded in DESIGN as outside C19's statement)
+# (`stringify!` and `unreachable!` are the two macros the templates use themselves - by full path since 6f90c36)
 DECOY_MACROS = ''.join('    #[allow(unused_macros)] macro_rules! %s { ($($t:tt)*) => { compile_error!("generated code used the macro %s! of the derive site") }; }\n' % (m, m)
-                       for m in ('matches', 'write', 'writeln', 'format', 'format_args', 'panic', 'assert', 'assert_eq', 'assert_ne', 'debug_assert', 'debug_assert_eq', 'vec', 'todo',
+                       for m in ('stringify', 'unreachable', 'matches', 'write', 'writeln', 'format', 'format_args', 'panic', 'assert', 'assert_eq', 'assert_ne', 'debug_assert', 'debug_assert_eq', 'vec', 'todo',
                                  'unimplemented', 'concat', 'line', 'column', 'file', 'module_path', 'cfg', 'env', 'option_env', 'print', 'println', 'eprintln', 'dbg'))
 
 
